@@ -91,6 +91,12 @@ def AclObj.implicitRuleObj (o : AclObj) : Rule :=
   { action := o.ruleAction, proto := none, srcIp := none, srcWc := none, dstIp := none, dstWc := none,
     srcPort := none, dstPort := none, hits := o.core.implicitHits }
 
+/-- a port cell of `show()`: `f"{rule.src_port}" if rule.src_port else "ANY"` is a truthiness test, so port 0 is DISPLAYED
+as ANY (display only — matching tests `is not None`). -/
+def showPortCell : Option Nat → Option Nat
+  | some 0 => none
+  | x => x
+
 def showRowsFrom : List (Option Rule) → Nat → List (Nat × Rule)
   | [], _ => []
   | none :: rest, i => showRowsFrom rest (i + 1)
